@@ -900,6 +900,9 @@ func returnsErr(ifs *ast.IfStmt) bool {
 
 // ---------------------------------------------------------------- write sites (C11)
 
+var engineStructs = map[string]bool{"Query": true, "Join": true, "ExpressionReaderOptions": true, "Options": true,
+	"HashedTable": true, "sqlLexer": true, "IndexSelector": true, "PipeSelector": true}
+
 // an assignment / delete / sort / copy whose target is not rooted in a value the function allocated
 func (ex *extractor) writeSites(f *Facts) {
 	for name, d := range ex.funcs {
@@ -964,9 +967,47 @@ func (ex *extractor) writeSites(f *Facts) {
 			}
 			return true
 		})
+		// parameters / receivers that point to one of the engine's own structs: assigning to their
+		// fields writes engine state, never the caller's document
+		engineParams := map[string]bool{}
+		addParams := func(fl *ast.FieldList) {
+			if fl == nil {
+				return
+			}
+			for _, fld := range fl.List {
+				if st, ok := fld.Type.(*ast.StarExpr); ok {
+					if id, ok := st.X.(*ast.Ident); ok && engineStructs[id.Name] {
+						for _, n := range fld.Names {
+							engineParams[n.Name] = true
+						}
+					}
+				}
+			}
+		}
+		addParams(d.Recv)
+		addParams(d.Type.Params)
+		ast.Inspect(d.Body, func(n ast.Node) bool {
+			if lit, ok := n.(*ast.FuncLit); ok {
+				addParams(lit.Type.Params)
+			}
+			return true
+		})
 		report := func(kind string, target ast.Expr) {
 			if rootedInFresh(target, fresh) {
 				return
+			}
+			if kind == "field" {
+				root := target
+				for {
+					if se, ok := root.(*ast.SelectorExpr); ok {
+						root = se.X
+						continue
+					}
+					break
+				}
+				if id, ok := root.(*ast.Ident); ok && engineParams[id.Name] {
+					return
+				}
 			}
 			f.WriteSites = append(f.WriteSites, fmt.Sprintf("%s:%s:%s", name, kind, exprText(stripIndex(target))))
 		}
